@@ -1795,6 +1795,22 @@ class Interp:
         try:
             if len(args) == 3:
                 init = args[2] if isinstance(args[2], tuple) else self.reify(args[2])
+                if init[0] == "tuple" and 2 <= len(init[1]) <= 4 and not any(x[0] == "star" for x in init[1]):
+                    # a tuple-valued accumulator is the loop that carries its components:
+                    #   a0, a1 = init; for x in xs: a0, a1 = f((a0, a1), x)
+                    n = len(init[1])
+                    names = [f"__acc{i}" for i in range(n)]
+                    loop = ast.parse(f"for __x in __xs:\n    {', '.join(names)} = __f(({', '.join(names)}), __x)\n").body[0]
+                    for nm, v0 in zip(names, init[1]):
+                        env.set(nm, v0)
+                    try:
+                        self.exec_for(loop, env, ctx)
+                        return ("tuple", tuple(self.as_term(env.get(nm)) for nm in names))
+                    except AnalysisError:
+                        del self.guards[n0:]
+                        env = Env()
+                        env.set("__f", f)
+                        env.set("__xs", xs)
                 env.set("__acc", init)
                 self.exec_for(self._REDUCE_LOOP, env, ctx)
             else:
